@@ -109,8 +109,8 @@ func (seg Segment) IntersectsSegment(other Segment) bool {
 		// Lines are collinear, and so intersect if they have any overlap
 		if !(((c.X-a.X <= 0) != (c.X-b.X <= 0)) ||
 			((c.Y-a.Y <= 0) != (c.Y-b.Y <= 0))) {
-			return seg.Raycast(other.A).On || seg.Raycast(other.B).On
-			//return false
+			return seg.Raycast(other.A).On || seg.Raycast(other.B).On ||
+				other.Raycast(seg.A).On || other.Raycast(seg.B).On
 		}
 		return true
 	}
